@@ -38,6 +38,10 @@ class WarnP(UserWarning):
     pass
 
 
+class WarnR(UserWarning):
+    pass
+
+
 def conf_table():
     """name -> (kwargs source, kwargs, expected class per kind {'door','param','return'} or None for default)"""
     from beartype import BeartypeConf, BeartypeStrategy, BeartypeViolationVerbosity as VV
@@ -52,6 +56,7 @@ def conf_table():
         'perkind': ({'violation_door_type': ExcD, 'violation_param_type': ExcP, 'violation_return_type': ExcR},
                     {'door': ExcD, 'param': ExcP, 'return': ExcR}),
         'mixed': ({'violation_type': E, 'violation_param_type': WarnP}, {'door': E, 'param': WarnP, 'return': E}),
+        'mixed-return-warns': ({'violation_type': E, 'violation_return_type': WarnR}, {'door': E, 'param': E, 'return': WarnR}),
         'minimal': ({'violation_verbosity': VV.MINIMAL, 'is_color': False}, dflt),
         'maximal-color': ({'violation_verbosity': VV.MAXIMAL, 'is_color': True}, dflt),
         'On': ({'strategy': BeartypeStrategy.On}, dflt),
